@@ -163,23 +163,20 @@ def has_error_nodes(module_node):
 
 
 def error_nodes_follow_formfeed(module_node, text):
-    """Every parso error node starts on a physical line that begins with a form feed
-    (shape of DEV-FormFeedIndent)."""
+    """Some parso error node starts on a physical line that begins with a form feed (shape of
+    DEV-FormFeedIndent; a decorator in front of such a def/class is dragged into an error node too).
+    Only used for sources whose un-re-encoded original parso parses without error nodes."""
     starts = line_starts(text)
-    found = False
     stack = [module_node]
     while stack:
         n = stack.pop()
         if n.type == 'error_node':
-            found = True
             ln = n.get_first_leaf().start_pos[0]
-            if text[starts[ln - 1]:starts[ln - 1] + 1] != '\f':
-                return False
+            if text[starts[ln - 1]:starts[ln - 1] + 1] == '\f':
+                return True
             continue
-        if n.type == 'error_leaf' and getattr(n, 'token_type', None) not in ('INDENT', 'DEDENT', 'ERROR_DEDENT'):
-            return False
         stack.extend(getattr(n, 'children', ()))
-    return found
+    return False
 
 
 def parso_anc(module_node):
